@@ -57,6 +57,7 @@ type caseSpec struct {
 	Prio       int         `json:"prio"` // common prioritized marker (-1: none). As in ctr-remote the option is append()ed to the base slice.
 	Layers     []layerSpec `json:"layers"`
 	Reps       int         `json:"reps"`
+	Lean       bool        `json:"lean"`
 	Retry      bool        `json:"retry"` // the last repetition re-converts inside the store of the previous one
 }
 
@@ -104,8 +105,11 @@ func (c caseSpec) desc() string {
 	return sb.String()
 }
 
-func genCase(rng *prng.R, idx int, reps int) caseSpec {
-	c := caseSpec{Idx: idx, Reps: reps}
+// genCase draws case idx. lean (race stage): 8-10 layers, one Build worker and one gzip
+// member per ~20 kB, because in the -race build every compressor instance costs up to a
+// second on the shared VM; the converter glue under test is the same.
+func genCase(rng *prng.R, idx int, reps int, lean bool) caseSpec {
+	c := caseSpec{Idx: idx, Reps: reps, Lean: lean}
 	// every kind appears in every 7 consecutive cases; the rest is drawn
 	c.Kind = allKinds[idx%len(allKinds)]
 	c.Docker = rng.Chance(1, 3)
@@ -136,7 +140,7 @@ func genCase(rng *prng.R, idx int, reps int) caseSpec {
 	}
 	// WithParallelism: 0 = GOMAXPROCS sub-blobs per layer, each with compressors of its own
 	// (a zstd encoder allocates megabytes, which the -race build pays for per byte)
-	c.Workers = rng.Pick(1, 1, 1, 2, 2, 2, 4, 0)
+	c.Workers = rng.Pick(1, 1, 1, 1, 2, 2, 4, 0)
 	c.Prio = -1
 	if rng.Chance(1, 2) {
 		c.Prio = rng.Intn(nMarkers)
@@ -148,6 +152,12 @@ func genCase(rng *prng.R, idx int, reps int) caseSpec {
 	n := rng.Range(8, 16)
 	if rng.Chance(1, 5) {
 		n = rng.Range(1, 7)
+	}
+	if lean {
+		n = rng.Range(8, 10)
+		c.MinChunk = 20000
+		c.Workers = 1
+		c.Level = 1
 	}
 	chunkBase := rng.Intn(len(perLayerChunks))
 	for j := 0; j < n; j++ {
@@ -213,10 +223,10 @@ func markerName(k int) string { return fmt.Sprintf("%s/p%d", markerDir, k) }
 // layerTar draws the tar of one layer: a small random tree of the shared generator plus
 // the marker files c19m/p0..p3 (regular, unique, 700..1500 bytes, p0 >= 1100) that every layer
 // contains, so that "whose chunk size / whose prioritized file was applied" is decidable.
-func layerTar(seed uint64) (tarBytes []byte, markerSizes [nMarkers]int64) {
+func layerTar(seed uint64) (tarBytes []byte, markerSizes [nMarkers]int64, markerIDs [nMarkers]uint64) {
 	rng := prng.New(seed)
 	o := gen.DefaultOpts(128)
-	o.MaxEntries = 6
+	o.MaxEntries = 4
 	o.MaxFileSize = 700
 	o.LongNames = false
 	es := gen.RandomTar(rng, o)
@@ -227,7 +237,8 @@ func layerTar(seed uint64) (tarBytes []byte, markerSizes [nMarkers]int64) {
 			sz = int64(rng.Range(1100, 1500)) // longer than the common chunk size
 		}
 		markerSizes[k] = sz
-		es = append(es, gen.Entry{Name: markerName(k), Type: tar.TypeReg, Mode: 0o644, ModTime: 1500000000 + int64(k), Size: sz, ContentID: rng.U64() | 1})
+		markerIDs[k] = rng.U64() | 1
+		es = append(es, gen.Entry{Name: markerName(k), Type: tar.TypeReg, Mode: 0o644, ModTime: 1500000000 + int64(k), Size: sz, ContentID: markerIDs[k]})
 	}
-	return gen.TarBytes(es), markerSizes
+	return gen.TarBytes(es), markerSizes, markerIDs
 }
